@@ -14,7 +14,10 @@
 // refused after the store started to evict, and the sweep "what the route's
 // admission / authentication layers are configured to do with the request"
 // (layers_test.go): route configuration x header set x framing x body sizes
-// around every configured limit, with a recording in-memory auth service.
+// around every configured limit, with a recording in-memory auth service; and the same after the route's configuration
+// CHANGED while the application runs (change_test.go): configuration histories - boot with A, requests, production
+// reload to B (every ordered pair of values of every option dimension; chains of two; a management mutation through
+// the Admin API) - judged with the reference of the configuration in force when the request was accepted.
 //
 // The enumeration is split over shard processes (runner.RunShards): the SQLite
 // driver does not scale over goroutines of one process.
@@ -305,7 +308,7 @@ func TestCheck(t *testing.T) {
 		"layers sweep: route configuration (layer_routes: auth forward in every option combination and answer class, auth basic, auth hmac, rate_limit, max_body, max_headers, stacks) x header set (every line atom alone, entity headers Content-Type / Content-Encoding / Expect / comma value alone and combined) x framing {Content-Length, chunked, chunked+declared trailer} x body sizes {0,1,5, limit-1, limit, limit+1, 4*limit+1 for every configured body_limit / max_body, a gzip stream} x credentials {valid, wrong, none}; the auth service is an in-memory RoundTripper that records the sub-request; "+
 		"change sweep: configuration histories of one route in a running application (change_histories): for every option dimension of the layer routes every ordered pair of its values on a carrier route, boot with A, two requests, production reload (VerifApp.Reload) to B"+
 		runner.Pick(r, "", ", every chain of two changes within a dimension (incl. B>A>B and A>A'>B), every ordered pair of dimensions as a chain, every single-option pair that ends in a route kind of the layer table")+
-		", and for every layer route a management mutation through the Admin API (PUT endpoint mapping: the application rewrites and reloads its file); then header sets {none, sensitive+entity, repeated name"+runner.Pick(r, "", ", single, entity pair, mixed")+"} x framing x body sizes around every limit of every configuration of the history x credentials, judged with the reference of the configuration in force when the request was sent; every reload changes one option of one route in the whole file; "+
+		", and for every layer route a management mutation through the Admin API (PUT endpoint mapping: the application rewrites and reloads its file); then header sets {none, sensitive+entity, repeated name"+runner.Pick(r, "", ", mixed; chains and table pairs: none, sensitive+entity+repeated name")+"} x framing x body sizes around every limit of every configuration of the history x credentials, judged with the reference of the configuration in force when the request was sent; every reload changes one option of one route in the whole file; "+
 		"bounded-queue family: every operation sequence within bounded_queue_bounds on a queue with queue_limits, every message visible after every operation and in the delivery flow afterwards is compared (which messages survive is not judged); "+
 		"every accepted message is observed at admin list, first delivery, nack+redelivery, (sqlite) close+reopen then two more deliveries; one evaluation = one observation or one accept/reject decision compared with the reference; "+
 		"distinct = (way in, route, framing, path out, phase, backend, body class, header atom set, verdict); non-trivial = the case went through a real enqueue and a real delivery or a real rejection")
